@@ -327,8 +327,16 @@ static void workerHardHandler(const char* cls, const char* key, const char* msg)
 // found, attributed and replayed through the ordinary runs).
 static void silentHard(const char*, const char*, const char*) {}
 static void silentCrash(const char*) {}
+static volatile long* g_probeBeat = nullptr;
+static void probeProgress() { (*g_probeBeat)++; }
 static bool warmupSurvives(const Scenario* sc, const Plan& plan, const SchedCfg& cfg)
 {
+	if (!g_probeBeat)
+	{
+		g_probeBeat = (volatile long*)mmap(0, 4096, PROT_READ | PROT_WRITE, MAP_SHARED | MAP_ANONYMOUS, -1, 0);
+		if (g_probeBeat == MAP_FAILED)
+			exit(2);
+	}
 	fflush(0);
 	pid_t pid = fork();
 	if (pid < 0)
@@ -340,14 +348,39 @@ static bool warmupSurvives(const Scenario* sc, const Plan& plan, const SchedCfg&
 		int nul = open("/dev/null", O_WRONLY);
 		if (nul >= 0)
 			dup2(nul, 2);
-		alarm(120);
+		alarm(300);
+		setProgressHook(probeProgress);
 		RunResult res;
 		runOne(plan, cfg, sc->run, res);
 		_exit(0);
 	}
+	// a warm-up plan that stops executing schedule points (a busy loop in the code under test) is abandoned
+	// after 15 s: the ordinary runs will meet the same hang with proper attribution
 	int st = 0;
-	while (waitpid(pid, &st, 0) < 0 && errno == EINTR)
+	long lastBeat = *g_probeBeat;
+	double lastAt = wallNow();
+	for (unsigned spins = 0;; spins++)
 	{
+		pid_t r = waitpid(pid, &st, WNOHANG);
+		if (r == pid)
+			break;
+		if (r < 0 && errno != EINTR)
+			return false;
+		usleep(spins < 200 ? 500 : 20000);
+		long b = *g_probeBeat;
+		if (b != lastBeat)
+		{
+			lastBeat = b;
+			lastAt = wallNow();
+		}
+		else if (wallNow() - lastAt > 15.0)
+		{
+			kill(pid, SIGKILL);
+			while (waitpid(pid, &st, 0) < 0 && errno == EINTR)
+			{
+			}
+			return false;
+		}
 	}
 	return WIFEXITED(st) && WEXITSTATUS(st) == 0;
 }
@@ -360,8 +393,9 @@ static void warmup(const Scenario* sc, int tier)
 		SchedCfg cfg;
 		derive(sc, 0xfffffff0ULL + k, tier, plan, cfg);
 		cfg.strategy = ST_RUN2BLOCK;
+		cfg.maxSteps = std::min<uint64_t>(cfg.maxSteps, 300000); // first-use effects happen early; a warm-up run that spins must stay cheap
 		if (!warmupSurvives(sc, plan, cfg))
-			continue;
+			break; // this tree fails its own warm-up: no point in spending the budget on the remaining warm-up plans
 		RunResult res;
 		runOne(plan, cfg, sc->run, res);
 	}
@@ -1624,5 +1658,11 @@ int main(int argc, char** argv)
 		return 1;
 	if (harnessBroken)
 		return 2;
+	if (totalRuns == 0 && !jobs.empty())
+	{
+		// nothing was explored (every worker spent the whole budget before its first counted run): that is not "held"
+		printf("HARNESS-ERROR: no run completed within the budget; nothing was decided\n");
+		return 2;
+	}
 	return 0;
 }
